@@ -178,8 +178,8 @@ func c09GoroutineAppends(c *Check, a *Anchors) {
 	c.Rule("completion-order-sorted", "in load-phase goroutine closures (literals handed to errgroup.Go) a slice that grows by append and is then stored in shared state (graph edge data) is sorted after the append and before the store, so that goroutine completion order does not leak into the result")
 	n := 0
 	for _, fb := range c.P.Bodies() {
-		if fb.Lit == nil || (fb.Pkg.PkgPath != PkgTaskfile && fb.Pkg.PkgPath != PkgAst) {
-			continue
+		if fb.Pkg.PkgPath != PkgTaskfile && fb.Pkg.PkgPath != PkgAst {
+			continue // (a goroutine literal, or the method of the package it hands the update of the shared state to)
 		}
 		info := fb.Info()
 		inspectBody(fb.Body, func(nd ast.Node) bool {
